@@ -293,6 +293,25 @@ def _note_array_and_tracks(b, rng):
                 same = all(m["midi_pitch"] == n["midi_pitch"] and m["velocity"] == n["velocity"] and abs(m["note_on"] - n["note_on"]) < 1e-5 * (1 + abs(n["note_on"]))
                            and abs(m["sound_off"] - n["sound_off"]) < 1e-5 * (1 + abs(n["sound_off"])) for m, n in zip(back.notes, part.notes)) and len(back.notes) == len(part.notes)
                 b.case("note_array/rebuilt_part_same_pitches_velocities_onsets_sounding_ends", same, case, "round trip through the note array differs")
+    # parts whose items carry no track number (the default), built with and without the `track` keyword of the part; controls with and without one
+    for with_kw in (False, True):
+        for ctl_key in (False, True):
+            def mkp(pi):
+                nl = [dict(id="p%dn%d" % (pi, i), midi_pitch=60 + i, note_on=0.0, note_off=1.0, velocity=64, channel=1) for i in range(2)]
+                cl = [dict(number=64, time=0.0, value=0, channel=0, **({"track": 0} if ctl_key else {}))]
+                return pf.PerformedPart(nl, id="p%d" % pi, controls=cl, **({"track": pi + 3} if with_kw else {}))
+            case = {"items_without_track_numbers": True, "track_keyword_of_the_parts": with_kw, "controls_carry_a_track": ctl_key}
+            ok, pps2 = b.guard("tracks/no_exception", case, lambda: [mkp(0), mkp(1)])
+            if not ok:
+                continue
+            before = [p_.num_tracks for p_ in pps2]
+            ok, perf = b.guard("tracks/no_exception", case, lambda: pf.Performance(pps2))
+            if not ok:
+                continue
+            sets = [set(n["track"] for n in p_.notes) | set(c.get("track") for c in p_.controls) for p_ in perf.performedparts]
+            after = [p_.num_tracks for p_ in perf.performedparts]
+            b.case("tracks/unique_across_parts_without_mixing", not (sets[0] & sets[1]) and after == [len(x) for x in sets] and before == after and perf.num_tracks == sum(after), case,
+                   "track sets %r; tracks counted per part before %r and after %r making them unique; performance counts %r" % ([sorted(x, key=repr) for x in sets], before, after, perf.num_tracks))
     # the numeric type of the note times is the caller's: whole seconds given as Python or numpy integers, float32 values
     import numpy as _np
     for tname, conv in (("int", int), ("numpy.int64", _np.int64), ("numpy.int32", _np.int32), ("numpy.float32", _np.float32), ("numpy.float64", _np.float64)):
